@@ -36,7 +36,7 @@ EXHAUSTIVE = False
 TEXTS = ['Hello', 'Ünïcødé ♯ title', '𝄞 non-BMP', 'a < b & c', 'ß — „quotes“',
          # characters that str.splitlines() / universal-newline handling treat as line ends but XML keeps
          'line\u2028sep and para\u2029sep', 'next\x85line', 'two\nlines', 
-         'trailing newline\n', 'caf\udce9.mid']
+         'trailing newline\n']
 
 
 def build_score(spec):
@@ -369,6 +369,15 @@ def draw_spec(data, small=False):
 
 def run_shard(ctx, shard, acc):
     if shard['mode'] == 'faults':
+        # fixed: a document whose text has no UTF-8 form at all (write() must not return), for every prior state
+        spec0 = {'parts': 1, 'measures': 1, 'notes': 1, 'title': 'caf\udce9.mid', 'words': 'Hello'}
+        for prior in SUCCESS_PRIORS:
+            f = check_success(spec0, prior)
+            acc.case({'mode': 'success', 'spec': spec0, 'prior': prior}, True, 0)
+            acc.count('unencodable-document')
+            if f:
+                acc.fail(f, raise_=False)
+
         def body(data):
             spec = draw_spec(data, small=ctx.quick)
             sc = build_score(spec)
